@@ -6,7 +6,7 @@ class C01(Prop):
     check_mod = "C01"
     drivers = [dict(pkg="internal/auth", test="TestVerifC01")]
     n_quick = 1000
-    n_thorough = 60000
+    n_thorough = 30000
     shard = 125
     ready = True
     manifest = dict(
